@@ -1,0 +1,104 @@
+// Copyright 2026 SCION Association
+//
+// Licensed under the Apache License, Version 2.0 (the "License");
+// you may not use this file except in compliance with the License.
+// You may obtain a copy of the License at
+//
+//   http://www.apache.org/licenses/LICENSE-2.0
+//
+// Unless required by applicable law or agreed to in writing, software
+// distributed under the License is distributed on an "AS IS" BASIS,
+// WITHOUT WARRANTIES OR CONDITIONS OF ANY KIND, either express or implied.
+// See the License for the specific language governing permissions and
+// limitations under the License.
+
+//go:build verif
+
+package dataplane
+
+import (
+	"context"
+	"io"
+	"net"
+
+	"github.com/scionproto/scion/pkg/addr"
+	"github.com/scionproto/scion/pkg/snet"
+	"github.com/scionproto/scion/private/ringbuf"
+)
+
+// This file exports the SIG framing code (encoder, ingress worker) to the model-based
+// verification harness. It adds no behavior; it is only compiled with the build tag "verif".
+
+// VerifEncoder wraps the unexported frame encoder.
+type VerifEncoder struct {
+	e *encoder
+}
+
+// VerifNewEncoder creates an encoder. mtu is the maximum frame size including the SIG header.
+func VerifNewEncoder(sessionID uint8, streamID uint32, mtu uint16) *VerifEncoder {
+	return &VerifEncoder{e: newEncoder(sessionID, streamID, mtu)}
+}
+
+// Write hands a packet to the encoder (encoder.Write).
+func (v *VerifEncoder) Write(pkt []byte) { v.e.Write(pkt) }
+
+// Read returns the next frame (encoder.Read). The returned slice is reused by the next call.
+func (v *VerifEncoder) Read() []byte { return v.e.Read() }
+
+// Close closes the encoder (encoder.Close).
+func (v *VerifEncoder) Close() { v.e.Close() }
+
+// VerifMinMTU is the smallest frame size the sender accepts.
+const VerifMinMTU = minMTU
+
+// VerifReassemblyListCap is the capacity of a reassembly list.
+const VerifReassemblyListCap = reassemblyListCap
+
+// VerifWorker wraps the unexported ingress worker (frame decapsulation).
+type VerifWorker struct {
+	w *worker
+}
+
+// VerifNewWorker creates an ingress worker that writes decapsulated packets to sink.
+func VerifNewWorker(sink io.WriteCloser) *VerifWorker {
+	remote := &snet.UDPAddr{IA: addr.MustParseIA("1-ff00:0:110"), Host: &net.UDPAddr{IP: net.IPv4(127, 0, 0, 1)}}
+	return &VerifWorker{w: newWorker(remote, 0, sink, IngressMetrics{})}
+}
+
+// ProcessFrame copies raw into a frame buffer taken from the free-frame ring, as the ingress
+// server does with a datagram read from the network, and runs worker.processFrame on it.
+func (v *VerifWorker) ProcessFrame(raw []byte) {
+	frames := make(ringbuf.EntryList, 1)
+	if n := newFrameBufs(frames); n != 1 {
+		panic("no free frame buffer")
+	}
+	frame := frames[0].(*frameBuf)
+	copy(frame.raw, raw)
+	frame.frameLen = len(raw)
+	frame.sessId = frame.raw[1]
+	v.w.processFrame(context.Background(), frame)
+}
+
+// VerifFrameState is the reassembly metadata of one buffered frame.
+type VerifFrameState struct {
+	SeqNr      uint64
+	Index      int
+	FrameLen   int
+	Frag0Start int
+	PktLen     int
+}
+
+// ReassemblyState returns the frames buffered in the reassembly list of the epoch, in list order.
+func (v *VerifWorker) ReassemblyState(epoch int) []VerifFrameState {
+	rl, ok := v.w.rlists[epoch]
+	if !ok {
+		return nil
+	}
+	var st []VerifFrameState
+	for e := rl.entries.Front(); e != nil; e = e.Next() {
+		f := e.Value.(*frameBuf)
+		st = append(st, VerifFrameState{SeqNr: f.seqNr, Index: f.index, FrameLen: f.frameLen,
+			Frag0Start: f.frag0Start, PktLen: f.pktLen})
+	}
+	return st
+}
